@@ -2,11 +2,13 @@
 
 use crate::framework::Check;
 
+pub mod crash;
 pub mod lifecycle;
 
 pub fn all() -> Vec<&'static dyn Check> {
     let mut v: Vec<&'static dyn Check> = Vec::new();
     v.extend(lifecycle::checks());
+    v.extend(crash::checks());
     v
 }
 
